@@ -1,10 +1,12 @@
 (* C31 — faithful model of the tabular tap dependency lookups of pandapower/build_branch.py
-     _calc_tap_from_dataframe   (:571-727, the table part :617-669)
-     _get_vk_values_from_table  (:736-783)
-   as they are in /repo now: the characteristic-table rows are inner-merged with the masked transformers on
-   (id_characteristic, step), then turned into a python dict keyed by id_characteristic ONLY
-   (dict(zip(ids, values)): a later entry overwrites an earlier one), then every masked transformer reads
-   mapping.get(id, 1).  Executable definitions only. *)
+     _calc_tap_from_dataframe   (:571-730, the table part :617-672)
+     _get_vk_values_from_table  (:738-790)
+   as they are in /repo now (after the repair "key the lookup by (id, step)"): the characteristic-table rows are
+   inner-merged with the masked transformers on (id_characteristic, step), then turned into a python dict keyed
+   by the pair (id_characteristic, step) (dict(zip(keys, values)): a later entry overwrites an earlier one), then
+   every masked transformer reads mapping.get((id, tap_pos), 1).
+   The behaviour before the repair (dict keyed by id_characteristic ONLY) is kept as [lookup_old] so that its
+   return is recognised (C31_old_lookup_refuted).  Executable definitions only. *)
 From Coq Require Import ZArith QArith List Bool String.
 From PPV Require Import Base.QN Base.Out.
 Import ListNotations.
@@ -29,13 +31,22 @@ Definition merged (tab : list crow) (flt : list frow) : list crow :=
   flat_map (fun r => map (fun _ => r) (filter (key_match r) flt)) tab.
 
 (* dict(zip(keys, vals)).get(k): the LAST pair with key k wins *)
-Definition dict_get {V : Type} (k : Z) (l : list (Z * V)) : option V :=
-  fold_left (fun acc kv => if Z.eqb (fst kv) k then Some (snd kv) else acc) l None.
+Definition dict_get {K V : Type} (eqb : K -> K -> bool) (k : K) (l : list (K * V)) : option V :=
+  fold_left (fun acc kv => if eqb (fst kv) k then Some (snd kv) else acc) l None.
+(* python tuple keys (id, step): ints compare as ints, floats by value *)
+Definition key2_eqb (a b : Z * Q) : bool := Z.eqb (fst a) (fst b) && qeqb (snd a) (snd b).
 
-(* mapping = dict(zip(filtered_df.id_characteristic, filtered_df[col]));  mapping.get(id, 1)
-   (build_branch.py:647-655 and :774-775) *)
-Definition lookup (col : crow -> Q) (tab : list crow) (flt : list frow) (k : Z) : Q :=
-  match dict_get k (map (fun r => (c_id r, col r)) (merged tab flt)) with
+(* table_keys = zip(filtered_df.id_characteristic, filtered_df.step); mapping = dict(zip(table_keys, filtered_df[col]));
+   mapping.get((id, tap_pos), 1)        (build_branch.py:647-659 and :776-781) *)
+Definition lookup (col : crow -> Q) (tab : list crow) (flt : list frow) (k : Z) (pos : Q) : Q :=
+  match dict_get key2_eqb (k, pos) (map (fun r => ((c_id r, c_step r), col r)) (merged tab flt)) with
+  | Some v => v
+  | None => 1
+  end.
+
+(* before the repair: mapping = dict(zip(filtered_df.id_characteristic, filtered_df[col])); mapping.get(id, 1) *)
+Definition lookup_old (col : crow -> Q) (tab : list crow) (flt : list frow) (k : Z) : Q :=
+  match dict_get Z.eqb k (map (fun r => (c_id r, col r)) (merged tab flt)) with
   | Some v => v
   | None => 1
   end.
@@ -50,7 +61,8 @@ Definition tab_consistent (col : crow -> Q) (tab : list crow) : bool :=
   forallb (fun r1 => forallb (fun r2 =>
      implb (Z.eqb (c_id r1) (c_id r2) && qeqb (c_step r1) (c_step r2)) (qeqb (col r1) (col r2))) tab) tab.
 
-(* G31: within one lookup group, transformers sharing an id sit at the same tap position *)
+(* G31 (guard of the pre-repair behaviour only): within one lookup group, transformers sharing an id sit at
+   the same tap position *)
 Definition same_id (a b : frow) : bool :=
   match f_id a, f_id b with Some i, Some j => Z.eqb i j | _, _ => false end.
 Definition G31 (flt : list frow) : bool :=
@@ -81,22 +93,22 @@ Definition frows (s : side) (rows : list trow) : list frow :=
 Definition na_error (rows : list trow) : bool :=
   existsb (fun t => t_dep t && match t_id t with None => true | Some _ => false end) rows.
 
-(* one pass of  for side, vn, direction in [("hv", vnh, 1), ("lv", vnl, -1)]  (:634-669) on row t *)
+(* one pass of  for side, vn, direction in [("hv", vnh, 1), ("lv", vnl, -1)]  (:634-672) on row t *)
 Definition apply_side (is3w : bool) (s : side) (tab : list crow) (rows : list trow) (t : trow) : trow :=
   if t_dep t && side_eqb (t_side t) s then
     match t_id t with
     | None => t
     | Some k =>
         let flt := frows s rows in
-        let ratio0 := lookup c_ratio tab flt k in
-        let ang0 := lookup c_angle tab flt k in
-        let shift0 := match s with LV => qopp ang0 | _ => ang0 end in           (* :650-655 *)
-        let ratio := if is3w && t_star t then qdiv 1 ratio0 else ratio0 in       (* :657-666 *)
+        let ratio0 := lookup c_ratio tab flt k (t_pos t) in
+        let ang0 := lookup c_angle tab flt k (t_pos t) in
+        let shift0 := match s with LV => qopp ang0 | _ => ang0 end in           (* :655-660 *)
+        let ratio := if is3w && t_star t then qdiv 1 ratio0 else ratio0 in       (* :662-669 *)
         let shift := if is3w && t_star t then qopp shift0 else shift0 in
         {| t_dep := t_dep t; t_id := t_id t; t_pos := t_pos t; t_side := t_side t; t_star := t_star t;
-           t_vnh := match s with HV => qmul (t_vnh t) ratio | _ => t_vnh t end;  (* :668 vn[mask] *= ratio *)
+           t_vnh := match s with HV => qmul (t_vnh t) ratio | _ => t_vnh t end;  (* :671 vn[mask] *= ratio *)
            t_vnl := match s with LV => qmul (t_vnl t) ratio | _ => t_vnl t end;
-           t_shift := qadd (t_shift t) shift |}                                  (* :669 *)
+           t_shift := qadd (t_shift t) shift |}                                  (* :672 *)
     end
   else t.
 
@@ -133,12 +145,12 @@ Fixpoint mapi_aux {A B} (f : nat -> A -> B) (i : nat) (l : list A) : list B :=
   match l with [] => [] | a :: l' => f i a :: mapi_aux f (S i) l' end.
 Definition col_vk (j : nat) (r : crow) : Q := nth j (c_vk r) 0.
 
-(* vk_value[mask] = [vk_mapping.get(id, 1) ...]  for every vk variable j (:755-779) *)
+(* vk_value = copy; vk_value[mask] = [vk_mapping.get((id, tap_pos), 1) ...]  for every vk variable j (:757-786) *)
 Definition vk_values (tab : list crow) (rows : list vrow) (t : vrow) : list Q :=
   if v_dep t then
     match v_id t with
     | None => v_vk t
-    | Some k => mapi_aux (fun j _ => lookup (col_vk j) tab (vfrows rows) k) 0 (v_vk t)
+    | Some k => mapi_aux (fun j _ => lookup (col_vk j) tab (vfrows rows) k (v_pos t)) 0 (v_vk t)
     end
   else v_vk t.
 
@@ -152,6 +164,9 @@ Definition run_vk (tab : list crow) (rows : list vrow) : out :=
   if existsb v_dep rows then
     if vk_na_error rows then OErr "UserWarning" else olist (fun t => olist oq (vk_values tab rows t)) rows
   else olist (fun t => olist oq (v_vk t)) rows.
+(* pre-repair lookup, for the regression witness replayed by the harness *)
+Definition run_old (tab : list crow) (flt : list frow) (k : Z) : out :=
+  OL [oq (lookup_old c_ratio tab flt k); oq (lookup_old (col_vk 0) tab flt k)].
 (* the value the spec demands, for the harness' cross-check of its own python spec *)
 Definition run_own (tab : list crow) (k : Z) (pos : Q) : out :=
   match own_row tab k pos with
